@@ -29,6 +29,7 @@ type G struct {
 	invalid      bool
 	allowInvalid bool
 	big          bool // allow expensive sizes (64 KiB scripts, thousands of items)
+	light        bool // keep values small (arrival-path cases decode each value many times)
 }
 
 func newG(r *prng.R) *G {
@@ -47,6 +48,9 @@ func (g *G) cnt(max int) int {
 	}
 	if max > 4096 && !g.big {
 		w[2], w[3], w[4] = 0, 0, 0
+	}
+	if g.light {
+		w = []int{90, 4, 3, 3, 0}
 	}
 	switch g.r.Weighted(w) {
 	case 0:
